@@ -134,6 +134,14 @@ impl SemanticState {
                 })
             })
             .collect::<anyhow::Result<Vec<_>>>()?;
+        for (i, extern_value) in extern_values.iter().enumerate() {
+            if extern_values[..i].iter().any(|ev| ev.name == extern_value.name) {
+                anyhow::bail!(
+                    "extern value `{}` is defined more than once in module `{path}`",
+                    extern_value.name
+                );
+            }
+        }
 
         self.modules.insert(
             path.clone(),
